@@ -248,3 +248,513 @@ fn c03_wipe_nothing() { wipe_case(40, 0); }
 #[kani::proof]
 #[kani::unwind(70)]
 fn c03_wipe_across_end() { wipe_case(250, 256); }
+
+// =================================================================================================
+// C03: ZiPatch::apply over the in-memory file system model (support/memfs.rs, wired in through
+// registry.TRANSFORMS) and the format! engine model.  The patch is assembled byte by byte: chunk
+// kinds, ids and lengths are concrete (shape), offsets / counts / payload bytes symbolic.
+// =================================================================================================
+use crate::verif_support::refs::{ascii_utf8_validation, naive_memchr, naive_memrchr};
+
+struct PB;
+impl PB {
+    fn new() -> Self {
+        memfs::patch_begin("p.patch");
+        let mut p = PB;
+        p.put(&[0x91, b'Z', b'I', b'P', b'A', b'T', b'C', b'H', 0x0d, 0x0a, 0x1a, 0x0a]);
+        p
+    }
+    fn put(&mut self, x: &[u8]) { let mut i = 0; while i < x.len() { memfs::patch_push(x[i]); i += 1; } }
+    /// SQPK chunk: size, "SQPK", inner size, command letter, body, CRC (sizes and CRC are not interpreted by apply)
+    fn sqpk(&mut self, op: u8, body: &[u8]) {
+        self.put(&((body.len() as u32 + 5).to_be_bytes()));
+        self.put(b"SQPK");
+        self.put(&((body.len() as u32 + 5).to_be_bytes()));
+        self.put(&[op]);
+        self.put(body);
+        self.put(&[0xde, 0xad, 0xbe, 0xef]);
+    }
+    fn eof(&mut self) { self.put(&[0, 0, 0, 0]); self.put(b"EOF_"); }
+    fn install(&self) {}
+}
+fn target_info_body(platform: u8) -> [u8; 123] {
+    let mut t = [0u8; 123];
+    t[4] = platform;
+    t[5] = 0xFF; t[6] = 0xFF; // region Global
+    t
+}
+/// 'D' / 'E' body: 3 reserved, main id, sub id, file id, block offset (units of 128), block count, 4 reserved
+fn delete_body(main_id: u16, sub_id: u16, file_id: u32, offset_units: u32, blocks: u32) -> [u8; 23] {
+    let mut d = [0u8; 23];
+    let (m, s, f, o, n) = (main_id.to_be_bytes(), sub_id.to_be_bytes(), file_id.to_be_bytes(), offset_units.to_be_bytes(), blocks.to_be_bytes());
+    d[3] = m[0]; d[4] = m[1]; d[5] = s[0]; d[6] = s[1];
+    let mut i = 0;
+    while i < 4 { d[7 + i] = f[i]; d[11 + i] = o[i]; d[15 + i] = n[i]; i += 1; }
+    d
+}
+
+fn apply_delete_or_expand(op: u8) {
+    memfs::reset();
+    let off: u32 = kani::any();
+    kani::assume(off <= 3);
+    let blocks: u32 = kani::any();
+    kani::assume(blocks >= 1 && blocks <= 2);
+    let mut p = PB::new();
+    p.sqpk(b'T', &target_info_body(0));
+    p.sqpk(op, &delete_body(0x0a, 0x0102, 3, off, blocks));
+    p.eof();
+    p.install();
+    let r = ZiPatch::apply("/g", "p.patch");
+    assert!(r.is_ok());
+    assert!(!memfs::limit_hit());
+    // category 0a, expansion 1, chunk 02, platform win32, data file 3 -- and nothing else
+    let slot = memfs::find("/g/sqpack/ex1/0a0102.win32.dat3").expect("data file created");
+    assert_eq!(memfs::file_count(), 1);
+    let start = off as usize * 128;
+    assert_eq!(memfs::file_len(slot), start + blocks as usize * 128);
+    let k: usize = kani::any();
+    kani::assume(k < memfs::file_len(slot));
+    let want = if k < start { 0 } else if k < start + 20 { empty_block_byte(k - start, blocks as u64) } else { 0 };
+    assert_eq!(memfs::file_byte(slot, k), want);
+    kani::cover!(off == 3 && blocks == 2);
+    kani::cover!(off == 0 && blocks == 1);
+}
+#[kani::proof]
+#[kani::unwind(160)]
+#[kani::stub(core::str::validations::run_utf8_validation, ascii_utf8_validation)]
+#[kani::stub(core::slice::memchr::memchr_aligned, naive_memchr)]
+#[kani::stub(core::slice::memchr::memrchr, naive_memrchr)]
+fn c03_apply_delete_data() { apply_delete_or_expand(b'D'); }
+#[kani::proof]
+#[kani::unwind(160)]
+#[kani::stub(core::str::validations::run_utf8_validation, ascii_utf8_validation)]
+#[kani::stub(core::slice::memchr::memchr_aligned, naive_memchr)]
+#[kani::stub(core::slice::memchr::memrchr, naive_memrchr)]
+fn c03_apply_expand_data() { apply_delete_or_expand(b'E'); }
+
+/// 'A' body: 3 reserved, main id, sub id, file id, block offset / byte count / delete count (each in units of 128), data
+fn add_data_header(main_id: u16, sub_id: u16, file_id: u32, offset_units: u32, data_units: u32, delete_units: u32) -> [u8; 23] {
+    let mut d = delete_body(main_id, sub_id, file_id, offset_units, data_units);
+    let n = delete_units.to_be_bytes();
+    let mut i = 0;
+    while i < 4 { d[19 + i] = n[i]; i += 1; }
+    d
+}
+
+/// SQPK 'A': the 128 payload bytes land at 128 x block offset of the named data file, followed by
+/// 128 x delete count zero bytes; every other byte of a pre-existing file keeps its value
+#[kani::proof]
+#[kani::unwind(160)]
+#[kani::stub(core::str::validations::run_utf8_validation, ascii_utf8_validation)]
+#[kani::stub(core::slice::memchr::memchr_aligned, naive_memchr)]
+#[kani::stub(core::slice::memchr::memrchr, naive_memrchr)]
+fn c03_apply_add_data() {
+    memfs::reset();
+    let old: [u8; 640] = kani::any();
+    memfs::add_file("/g/sqpack/ffxiv/040003.ps4.dat1", &old);
+    let off: u32 = kani::any();
+    kani::assume(off <= 4);
+    let del: u32 = kani::any();
+    kani::assume(del <= 1);
+    let payload: [u8; 128] = kani::any();
+    let mut body = [0u8; 23 + 128];
+    let h = add_data_header(0x04, 0x0003, 1, off, 1, del);
+    let mut i = 0;
+    while i < 23 { body[i] = h[i]; i += 1; }
+    i = 0;
+    while i < 128 { body[23 + i] = payload[i]; i += 1; }
+    let mut p = PB::new();
+    p.sqpk(b'T', &target_info_body(2));
+    p.sqpk(b'A', &body);
+    p.eof();
+    p.install();
+    let r = ZiPatch::apply("/g", "p.patch");
+    assert!(r.is_ok());
+    assert!(!memfs::limit_hit());
+    let slot = memfs::find("/g/sqpack/ffxiv/040003.ps4.dat1").expect("data file kept");
+    assert_eq!(memfs::file_count(), 1);
+    let start = off as usize * 128;
+    let end = start + 128 + del as usize * 128;
+    assert_eq!(memfs::file_len(slot), if end > 640 { end } else { 640 });
+    let k: usize = kani::any();
+    kani::assume(k < memfs::file_len(slot));
+    let want = if k >= start && k < start + 128 { payload[k - start] } else if k >= start + 128 && k < end { 0 } else if k < 640 { old[k] } else { 0 };
+    assert_eq!(memfs::file_byte(slot, k), want);
+    kani::cover!(off == 4 && del == 1);
+    kani::cover!(off == 0 && del == 0);
+}
+
+/// SQPK 'F' body: operation letter, 2 reserved, offset, size, path length (incl. NUL), expansion id, 2 reserved, path
+fn file_op_body(letter: u8, offset: u64, size: u64, expansion: u16) -> [u8; 35] {
+    let mut b = [0u8; 35];
+    b[0] = letter;
+    let (o, s, e) = (offset.to_be_bytes(), size.to_be_bytes(), expansion.to_be_bytes());
+    let mut i = 0;
+    while i < 8 { b[3 + i] = o[i]; b[11 + i] = s[i]; i += 1; }
+    b[22] = 8; // path length 8 = "ab/c.de" + NUL
+    b[23] = e[0]; b[24] = e[1];
+    let path = b"ab/c.de\0";
+    i = 0;
+    while i < 8 { b[27 + i] = path[i]; i += 1; }
+    b
+}
+/// one raw patch block of L <= 112 bytes (128 bytes on the wire)
+fn raw_block<const L: usize>(content: &[u8; L]) -> [u8; 128] {
+    let mut b = [0u8; 128];
+    b[0] = 16;
+    let m = 32000i32.to_le_bytes();
+    let l = (L as i32).to_le_bytes();
+    let mut i = 0;
+    while i < 4 { b[8 + i] = m[i]; b[12 + i] = l[i]; i += 1; }
+    i = 0;
+    while i < L { b[16 + i] = content[i]; i += 1; }
+    b
+}
+
+/// SQPK 'F' 'A' (add file): offset 0 replaces the file by the payload; a positive offset overwrites
+/// from there and keeps every other byte
+#[kani::proof]
+#[kani::unwind(160)]
+#[kani::stub(core::str::validations::run_utf8_validation, ascii_utf8_validation)]
+#[kani::stub(core::slice::memchr::memchr_aligned, naive_memchr)]
+#[kani::stub(core::slice::memchr::memrchr, naive_memrchr)]
+fn c03_apply_add_file() {
+    memfs::reset();
+    let old: [u8; 12] = kani::any();
+    let existed: bool = kani::any();
+    if existed { memfs::add_file("/g/ab/c.de", &old); }
+    let other: [u8; 4] = kani::any();
+    memfs::add_file("/g/ab/keep", &other);
+    let offset: u64 = kani::any();
+    kani::assume(offset <= 16);
+    let content: [u8; 5] = kani::any();
+    let fb = file_op_body(b'A', offset, 5, 0);
+    let blk = raw_block(&content);
+    let mut p = PB::new();
+    p.sqpk(b'T', &target_info_body(0));
+    // the file's blocks sit between the command and its CRC
+    let mut body = [0u8; 35 + 128];
+    let mut i = 0;
+    while i < 35 { body[i] = fb[i]; i += 1; }
+    i = 0;
+    while i < 128 { body[35 + i] = blk[i]; i += 1; }
+    p.sqpk(b'F', &body);
+    p.eof();
+    p.install();
+    let r = ZiPatch::apply("/g", "p.patch");
+    assert!(r.is_ok());
+    assert!(!memfs::limit_hit());
+    let slot = memfs::find("/g/ab/c.de").expect("file created");
+    assert_eq!(memfs::file_count(), 2);
+    let o = offset as usize;
+    let old_len = if existed && o != 0 { 12 } else { 0 };
+    let want_len = if o + 5 > old_len { o + 5 } else { old_len };
+    assert_eq!(memfs::file_len(slot), want_len);
+    let k: usize = kani::any();
+    kani::assume(k < want_len);
+    let want = if k >= o && k < o + 5 { content[k - o] } else if k < old_len { old[k] } else { 0 };
+    assert_eq!(memfs::file_byte(slot, k), want);
+    // the neighbour is untouched
+    let ks = memfs::find("/g/ab/keep").unwrap();
+    assert_eq!(memfs::file_len(ks), 4);
+    let j: usize = kani::any();
+    kani::assume(j < 4);
+    assert_eq!(memfs::file_byte(ks, j), other[j]);
+    kani::cover!(existed && o == 3);
+    kani::cover!(existed && o == 0);
+    kani::cover!(!existed && o == 16);
+}
+
+/// SQPK 'F' 'D' (delete file) removes exactly the named file; 'M' (make dir tree) creates its parent directory
+#[kani::proof]
+#[kani::unwind(160)]
+#[kani::stub(core::str::validations::run_utf8_validation, ascii_utf8_validation)]
+#[kani::stub(core::slice::memchr::memchr_aligned, naive_memchr)]
+#[kani::stub(core::slice::memchr::memrchr, naive_memrchr)]
+fn c03_apply_delete_file_and_mkdir() {
+    memfs::reset();
+    let a: [u8; 6] = kani::any();
+    let b: [u8; 4] = kani::any();
+    memfs::add_file("/g/ab/c.de", &a);
+    memfs::add_file("/g/ab/keep", &b);
+    let mkdir: bool = kani::any();
+    let mut p = PB::new();
+    p.sqpk(b'T', &target_info_body(0));
+    p.sqpk(b'F', &file_op_body(if mkdir { b'M' } else { b'D' }, kani::any(), kani::any(), kani::any()));
+    p.eof();
+    p.install();
+    let r = ZiPatch::apply("/g", "p.patch");
+    assert!(r.is_ok());
+    assert!(!memfs::limit_hit());
+    let ks = memfs::find("/g/ab/keep").expect("neighbour kept");
+    let j: usize = kani::any();
+    kani::assume(j < 4);
+    assert!(memfs::file_len(ks) == 4 && memfs::file_byte(ks, j) == b[j]);
+    if mkdir {
+        assert!(memfs::dir_created("/g/ab"));
+        assert_eq!(memfs::file_count(), 2);
+    } else {
+        assert!(memfs::find("/g/ab/c.de").is_none());
+        assert_eq!(memfs::file_count(), 1);
+    }
+    kani::cover!(mkdir);
+    kani::cover!(!mkdir);
+}
+
+/// a patch that ends before its EOF_ chunk (truncated download) is reported as an error
+fn truncated_patch(cut: usize) {
+    memfs::reset();
+    let mut p = PB::new();
+    p.sqpk(b'T', &target_info_body(0));
+    p.sqpk(b'D', &delete_body(0x0a, 0x0000, 0, 1, 1));
+    // no EOF_ chunk; with cut > 0 the last command is cut short as well
+    memfs::patch_truncate(memfs::patch_len() - cut);
+    p.install();
+    let r = ZiPatch::apply("/g", "p.patch");
+    assert!(r.is_err());
+    kani::cover!(true);
+}
+#[kani::proof]
+#[kani::unwind(160)]
+#[kani::stub(core::str::validations::run_utf8_validation, ascii_utf8_validation)]
+#[kani::stub(core::slice::memchr::memchr_aligned, naive_memchr)]
+#[kani::stub(core::slice::memchr::memrchr, naive_memrchr)]
+fn c17_apply_patch_without_eof_is_an_error() { truncated_patch(0); }
+#[kani::proof]
+#[kani::unwind(160)]
+#[kani::stub(core::str::validations::run_utf8_validation, ascii_utf8_validation)]
+#[kani::stub(core::slice::memchr::memchr_aligned, naive_memchr)]
+#[kani::stub(core::slice::memchr::memrchr, naive_memrchr)]
+fn c17_apply_patch_cut_mid_command_is_an_error() { truncated_patch(20); }
+
+
+// ---- zz probes (temporary) ----
+fn zz_spin(n: usize) { let mut k = 0; while k < n { k += 1; } }
+fn zz_patch_td() {
+    memfs::reset();
+    let off: u32 = kani::any();
+    let mut p = PB::new();
+    p.sqpk(b'T', &target_info_body(2));
+    p.sqpk(b'D', &delete_body(0x0a, 0x0102, 3, off, 1));
+    p.eof();
+}
+#[kani::proof]
+#[kani::unwind(160)]
+fn zz_a() {
+    zz_patch_td();
+    let mut f = File::open("p.patch").unwrap();
+    PatchHeader::read(&mut f).unwrap();
+    let c1 = PatchChunk::read(&mut f).unwrap();
+    match c1.chunk_type {
+        ChunkType::Sqpk(pc) => match pc.operation {
+            SqpkOperation::TargetInfo(t) => { if get_platform_string(&t.platform).len() == 3 { zz_spin(4); } else { zz_spin(200); } }
+            _ => { zz_spin(200); }
+        },
+        _ => { zz_spin(200); }
+    }
+}
+#[kani::proof]
+#[kani::unwind(160)]
+fn zz_b() {
+    zz_patch_td();
+    let mut f = File::open("p.patch").unwrap();
+    PatchHeader::read(&mut f).unwrap();
+    let mut ti: Option<SqpkTargetInfo> = None;
+    let mut n = 0;
+    loop {
+        let c = PatchChunk::read(&mut f).unwrap();
+        match c.chunk_type {
+            ChunkType::Sqpk(pc) => match pc.operation {
+                SqpkOperation::TargetInfo(t) => { ti = Some(t); }
+                SqpkOperation::DeleteData(d) => { if get_platform_string(&ti.as_ref().unwrap().platform).len() == 3 { zz_spin(4); } else { zz_spin(200); } if d.main_id == 10 { zz_spin(2); } else { zz_spin(200); } }
+                _ => { zz_spin(200); }
+            },
+            ChunkType::EndOfFile => { break; }
+            _ => { zz_spin(200); }
+        }
+        n += 1;
+    }
+    if n == 2 { zz_spin(3); } else { zz_spin(200); }
+}
+
+fn zz_t_bytes() -> [u8; 148] {
+    let mut b = [0u8; 148];
+    b[3] = 128; b[4] = b'S'; b[5] = b'Q'; b[6] = b'P'; b[7] = b'K'; b[11] = 128; b[12] = b'T';
+    b[13 + 4] = 2; b[13 + 5] = 0xFF; b[13 + 6] = 0xFF;
+    b
+}
+#[kani::proof]
+#[kani::unwind(160)]
+fn zz_v1() {
+    let b = zz_t_bytes();
+    let mut c = Cursor::new(&b[..]);
+    let c1 = PatchChunk::read(&mut c).unwrap();
+    match c1.chunk_type { ChunkType::Sqpk(_pc) => { zz_spin(4); } _ => { zz_spin(200); } }
+}
+#[kani::proof]
+#[kani::unwind(160)]
+fn zz_v2() {
+    let b = zz_t_bytes();
+    let mut c = Cursor::new(&b[..]);
+    let c1 = PatchChunk::read(&mut c).unwrap();
+    match c1.chunk_type { ChunkType::Sqpk(pc) => match pc.operation { SqpkOperation::TargetInfo(_t) => { zz_spin(4); } _ => { zz_spin(200); } }, _ => { zz_spin(4); } }
+}
+#[kani::proof]
+#[kani::unwind(160)]
+fn zz_v4() {
+    let b = zz_t_bytes();
+    let mut c = Cursor::new(&b[8..]);
+    let pc = SqpkChunk::read(&mut c).unwrap();
+    match pc.operation { SqpkOperation::TargetInfo(_t) => { zz_spin(4); } _ => { zz_spin(200); } }
+}
+#[kani::proof]
+#[kani::unwind(160)]
+fn zz_v5() {
+    let b = zz_t_bytes();
+    let mut c = Cursor::new(&b[13..]);
+    let t = SqpkTargetInfo::read(&mut c).unwrap();
+    if get_platform_string(&t.platform).len() == 3 { zz_spin(4); } else { zz_spin(200); }
+}
+#[kani::proof]
+#[kani::unwind(160)]
+fn zz_v6() {
+    let b = zz_t_bytes();
+    let mut c = Cursor::new(&b[13..]);
+    let t = SqpkTargetInfo::read(&mut c).unwrap();
+    let o = Some(t);
+    if get_platform_string(&o.as_ref().unwrap().platform).len() == 3 { zz_spin(4); } else { zz_spin(200); }
+}
+#[kani::proof]
+#[kani::unwind(160)]
+fn zz_v7() {
+    let b = zz_t_bytes();
+    let mut c = Cursor::new(&b[4..]);
+    let m = <[u8; 4]>::read_le(&mut c).unwrap();
+    if m == *b"SQPK" { zz_spin(4); } else { zz_spin(200); }
+}
+#[kani::proof]
+#[kani::unwind(160)]
+fn zz_v8() {
+    let b = zz_t_bytes();
+    let mut c = Cursor::new(&b[4..]);
+    let m = <[u8; 4]>::read_le(&mut c).unwrap();
+    if m[0] == b'S' && m[1] == b'Q' && m[2] == b'P' && m[3] == b'K' { zz_spin(4); } else { zz_spin(200); }
+}
+#[kani::proof]
+#[kani::unwind(160)]
+fn zz_v9() {
+    let b = zz_t_bytes();
+    let mut c = Cursor::new(&b[4..]);
+    let t = ChunkType::read_le(&mut c).unwrap();
+    match t { ChunkType::Sqpk(_pc) => { zz_spin(4); } _ => { zz_spin(200); } }
+}
+#[kani::proof]
+#[kani::unwind(160)]
+fn zz_v10() {
+    let m: [u8; 4] = [b'S', b'Q', b'P', b'K'];
+    let n = core::hint::black_box(m);
+    if n == *b"SQPK" { zz_spin(4); } else { zz_spin(200); }
+}
+#[kani::proof]
+#[kani::unwind(160)]
+fn zz_v11() {
+    zz_patch_td();
+    let mut f = File::open("p.patch").unwrap();
+    f.seek(SeekFrom::Start(12 + 13)).unwrap();
+    let t = SqpkTargetInfo::read(&mut f).unwrap();
+    if get_platform_string(&t.platform).len() == 3 { zz_spin(4); } else { zz_spin(200); }
+}
+#[kani::proof]
+#[kani::unwind(160)]
+fn zz_v12() {
+    memfs::reset();
+    let mut p = PB::new();
+    p.sqpk(b'T', &target_info_body(2));
+    p.eof();
+    let mut f = File::open("p.patch").unwrap();
+    PatchHeader::read(&mut f).unwrap();
+    let c1 = PatchChunk::read(&mut f).unwrap();
+    match c1.chunk_type {
+        ChunkType::Sqpk(pc) => match pc.operation {
+            SqpkOperation::TargetInfo(t) => { if get_platform_string(&t.platform).len() == 3 { zz_spin(4); } else { zz_spin(200); } }
+            _ => { zz_spin(200); }
+        },
+        _ => { zz_spin(200); }
+    }
+}
+#[kani::proof]
+#[kani::unwind(160)]
+fn zz_v13() {
+    zz_patch_td();
+    let mut f = File::open("p.patch").unwrap();
+    f.seek(SeekFrom::Start(12 + 13 + 4)).unwrap();
+    let mut b = [0u8; 1];
+    std::io::Read::read_exact(&mut f, &mut b).unwrap();
+    if b[0] == 2 { zz_spin(4); } else { zz_spin(200); }
+}
+fn zz_plat(t: &SqpkTargetInfo) { if get_platform_string(&t.platform).len() == 3 { zz_spin(4); } else { zz_spin(200); } }
+#[kani::proof]
+#[kani::unwind(160)]
+fn zz_v14() {
+    let b = zz_t_bytes();
+    let mut c = Cursor::new(&b[12..]);
+    let op = SqpkOperation::read_le(&mut c).unwrap();
+    match op { SqpkOperation::TargetInfo(t) => zz_plat(&t), _ => zz_spin(200) }
+}
+#[kani::proof]
+#[kani::unwind(160)]
+fn zz_v15() {
+    let b = zz_t_bytes();
+    let mut c = Cursor::new(&b[8..]);
+    let pc = SqpkChunk::read(&mut c).unwrap();
+    match pc.operation { SqpkOperation::TargetInfo(t) => zz_plat(&t), _ => zz_spin(200) }
+}
+#[kani::proof]
+#[kani::unwind(160)]
+fn zz_v16() {
+    let b = zz_t_bytes();
+    let mut c = Cursor::new(&b[4..]);
+    let ct = ChunkType::read_le(&mut c).unwrap();
+    match ct { ChunkType::Sqpk(pc) => match pc.operation { SqpkOperation::TargetInfo(t) => zz_plat(&t), _ => zz_spin(200) }, _ => zz_spin(200) }
+}
+#[kani::proof]
+#[kani::unwind(160)]
+fn zz_v17() {
+    let b = zz_t_bytes();
+    let mut c = Cursor::new(&b[13..]);
+    let t = SqpkTargetInfo::read(&mut c).unwrap();
+    let op = SqpkOperation::TargetInfo(t);
+    let ct = ChunkType::Sqpk(SqpkChunk { size: 3, operation: op });
+    let r: Result<PatchChunk, binrw::Error> = Ok(PatchChunk { size: 1, chunk_type: ct, crc32: 0 });
+    match r.unwrap().chunk_type { ChunkType::Sqpk(pc) => match pc.operation { SqpkOperation::TargetInfo(t) => zz_plat(&t), _ => zz_spin(200) }, _ => zz_spin(200) }
+}
+fn zz_ti() -> SqpkTargetInfo {
+    let b = zz_t_bytes();
+    let mut c = Cursor::new(&b[13..]);
+    SqpkTargetInfo::read(&mut c).unwrap()
+}
+#[kani::proof]
+#[kani::unwind(160)]
+fn zz_v18() {
+    let op = SqpkOperation::TargetInfo(zz_ti());
+    match op { SqpkOperation::TargetInfo(t) => zz_plat(&t), _ => zz_spin(200) }
+}
+#[kani::proof]
+#[kani::unwind(160)]
+fn zz_v19() {
+    let op = SqpkOperation::TargetInfo(zz_ti());
+    match op { SqpkOperation::TargetInfo(t) => { if t.version == 0 { zz_spin(4); } else { zz_spin(200); } }, _ => zz_spin(200) }
+}
+#[kani::proof]
+#[kani::unwind(160)]
+fn zz_v20() {
+    let op = SqpkOperation::AddData(SqpkAddData { main_id: 1, sub_id: 2, file_id: 3, block_offset: 0, block_number: 128, block_delete_number: 0, block_data: vec![7u8; 5] });
+    match op { SqpkOperation::AddData(a) => { if a.block_data.len() == 5 { zz_spin(4); } else { zz_spin(200); } if a.main_id == 1 { zz_spin(4); } else { zz_spin(200); } core::mem::forget(a); }, _ => zz_spin(200) }
+}
+#[kani::proof]
+#[kani::unwind(160)]
+fn zz_v21() {
+    let t = zz_ti();
+    let o = Some(t);
+    match o { Some(t2) => zz_plat(&t2), None => zz_spin(200) }
+}
